@@ -37,13 +37,13 @@ func (e enumDef) val(name string) string {
 
 // enumCase describes one enum pair + settings + intended mapping.
 type enumCase struct {
-	Name     string
-	Src, Tgt enumDef
-	Lines    []string          // method-level enum:map / enum:transform lines
-	Mapping  map[string]string // source member -> target member or @action (the intent)
-	Unknown  string            // policy
-	Fail     string            // non-empty: generation must fail, with this note
-	NoEnum   bool              // enum detection off / excluded: plain basic copy
+	Name      string
+	Src, Tgt  enumDef
+	Lines     []string          // method-level enum:map / enum:transform lines
+	Mapping   map[string]string // source member -> target member or @action (the intent)
+	Unknown   string            // policy
+	Fail      string            // non-empty: generation must fail, with this note
+	NoEnum    bool              // enum detection off / excluded: plain basic copy
 	ExtraConv []string
 }
 
@@ -67,7 +67,7 @@ func enumCases() []enumCase {
 		{Name: "int_to_string", Src: rgb("int", "0", "1", "2"), Tgt: rgb("string", `"a"`, `"b"`, `"c"`), Mapping: same},
 		{Name: "tgt_superset", Src: rgb("int", "0", "1", "2"), Tgt: rgb("int", "3", "2", "1", "0"), Mapping: same},
 		{Name: "alias_same_target", Src: enumDef{"int", []enumMember{{"Red", "0"}, {"Green", "1"}, {"Blue", "2"}, {"Azure", "2"}}},
-			Tgt: enumDef{"int", []enumMember{{"Red", "5"}, {"Green", "6"}, {"Blue", "7"}, {"Azure", "7"}}},
+			Tgt:     enumDef{"int", []enumMember{{"Red", "5"}, {"Green", "6"}, {"Blue", "7"}, {"Azure", "7"}}},
 			Mapping: map[string]string{"Red": "Red", "Green": "Green", "Blue": "Blue", "Azure": "Azure"}},
 		{Name: "alias_mapped", Src: enumDef{"int", []enumMember{{"Red", "0"}, {"Green", "1"}, {"Blue", "2"}, {"Azure", "2"}}},
 			Tgt:     rgb("int", "5", "6", "7"),
